@@ -2,9 +2,11 @@ SPECIFICATION ISpec
 CONSTANTS
   Sym = {97, 10, 32, 9}
   MaxLen = 3
-  MaxOps = 7
+  WithFailAt = TRUE
+  MaxOps = 5
   ColBug = FALSE
   SetPosBug = FALSE
+  FailBug = FALSE
   EofBug = FALSE
 VIEW IView
 INVARIANTS Refines ReturnsAgree
